@@ -473,7 +473,7 @@ class ModelStream(Stream):
     def cases(self, ctx):
         rng = ctx.rng_for("model")
         out = []
-        for i in range(ctx.scale(1500, 20000)):
+        for i in range(ctx.scale(1500, 10000)):
             r = rng.fork(str(i))
             full = gen_model_data(r)
             g = ModelGen(r, full)
@@ -551,7 +551,7 @@ class RefineStream(Stream):
     def cases(self, ctx):
         rng = ctx.rng_for("refine")
         out = []
-        for i in range(ctx.scale(1200, 20000)):
+        for i in range(ctx.scale(1200, 10000)):
             r = rng.fork(str(i))
             prog = gen_program(r)
             prog["full_keys"] = len(prog["data"])
